@@ -182,3 +182,120 @@ TARGETS.append(
                    ('caller.threads', {}, 'threads', 'Z'),
                    ('hand_to_reducer__(_b, _d)', {'_b': 'list (list Z)', '_d': 'list Z'}, '({_b} ++ [dispatched threads {_d}])', 'list (list Z)')],
          stmt_patterns=[('dispatches.append(_d)', {'_d': 'dispatch'}, 'dispatches', '({cur} ++ [fst {_d}])')]))
+
+# ---------------------------------------------------------------------------------------------- C20 decoyFasta
+# (6) cli/decoy_fasta.py DecoyFasta.find_fixed_indices / reverse_sequence / shuffle_sequence     vs Model/Decoy.v
+#     Trusted: the pinned `if self.enzyme is not None:` block computes Decoy.enzyme_fixed (rule sites minus exception,
+#     shifted by one) -- that block is what harness/translate/decoy_cli.py + C20.code_matches_spec tie to the source;
+#     `c in self.non_shuffle_pattern` is membership of the one-letter string in the split pattern list; fixed_indices is
+#     a list of non-negative ints (list nat); the list comprehension over enumerate(seq) is Decoy.free_indices;
+#     random.sample's result is the parameter `shuffled`; str(seq) / list(..) / Seq(''.join(..)) are representation changes.
+DECOY_ENZYME_IF = ("if self.enzyme is not None:\n    rule = self.enzyme\n    exception = 'trypsin_exception' if self.enzyme == 'trypsin' else None\n"
+                   "    fixed_indices += [i - 1 for i in aa.AminoAcidSeqRecord(seq).find_all_enzymatic_cleave_sites(rule, exception)]")
+DEC = dict(out='Py_decoy_fasta', file='moPepGen/cli/decoy_fasta.py', cls='DecoyFasta',
+           imports=['Model.Rule', 'Model.Digest', 'Model.Decoy'])
+DEC_ERR = {'IndexError': '(PErr PyIndexError)', 'OutOfFuel': '(PErr PyOutOfFuel)',
+           'UnboundLocalError': '(PErr PyUnboundLocalError)', 'TypeError': '(PErr PyTypeError)'}
+DEC_WALK = [
+    ('list(reversed([i for i, _ in enumerate(_s) if i not in _f]))', {'_s': 'list Z', '_f': 'list nat'},
+     '(rev (free_indices {_f} (length {_s})))', 'list nat'),
+    ('[i for i, _ in enumerate(_s) if i not in _f]', {'_s': 'list Z', '_f': 'list nat'},
+     '(free_indices {_f} (length {_s}))', 'list nat'),
+    ('_p in fixed_indices', {'_p': 'Z'}, '((0 <=? {_p}) && mem_nat (Z.to_nat {_p}) fixed)', 'bool'),
+    ('list(_x)', {'_x': 'list Z'}, '{_x}', 'list Z'),
+    ('_s[_a:]', {'_s': 'list Z', '_a': 'Z'}, '(py_slice_from {_s} {_a})', 'list Z'),
+    ("Seq(''.join(_x))", {'_x': 'list Z'}, '{_x}', 'list Z'),
+]
+TARGETS += [
+    dict(DEC, func='find_fixed_indices', coq_name='py_find_fixed_indices',
+         args=[('cfg', 'config'), ('s', 'list Z')], params={'seq': ('s', 'list Z')},
+         var_types={'fixed_indices': 'list nat'},
+         ret_ty='list nat', res_ty='list nat', ok='{}', stub='[0%nat; 0%nat; 0%nat]', errors={}, raises=[],
+         stmt_rewrites=[(DECOY_ENZYME_IF, 'fixed_indices = fixed_indices + enzyme_fixed__(seq)')],
+         patterns=[('enzyme_fixed__(_s)', {'_s': 'list Z'}, '(enzyme_fixed cfg {_s})', 'list nat'),
+                   ('self.keep_peptide_nterm', {}, '(c_nterm cfg)', 'bool'),
+                   ('self.keep_peptide_cterm', {}, '(c_cterm cfg)', 'bool'),
+                   ('_c in self.non_shuffle_pattern', {'_c': 'Z'}, '(mem_seq [{_c}] (c_pattern cfg))', 'bool')],
+         stmt_patterns=[('fixed_indices.append(_i)', {'_i': 'Z'}, 'fixed_indices', '({cur} ++ [Z.to_nat {_i}])')]),
+    dict(DEC, func='reverse_sequence', coq_name='py_reverse_sequence', decorators=['staticmethod'],
+         args=[('s', 'list Z'), ('fixed', 'list nat')],
+         params={'seq': ('s', 'list Z'), 'fixed_indices': ('fixed', 'list nat')},
+         var_types={'shuffled_seq': 'list Z'},
+         ret_ty='list Z', res_ty='pyres (list Z)', ok='(POk {})', stub='PErr PyValueError', errors=DEC_ERR, raises=[],
+         stmt_rewrites=[('seq = str(seq)', 'pass')],
+         patterns=DEC_WALK,
+         stmt_patterns=[('shuffled_seq.append(_c)', {'_c': 'Z'}, 'shuffled_seq', '({cur} ++ [{_c}])')],
+         # every iteration advances i + offset, which cannot pass len(seq) without an IndexError, or i
+         fuel=['(S (length s + length {reversed_indices}))']),
+    dict(DEC, func='shuffle_sequence', coq_name='py_shuffle_sequence', decorators=['staticmethod'],
+         args=[('s', 'list Z'), ('fixed', 'list nat'), ('shuffled', 'list nat')],
+         params={'seq': ('s', 'list Z'), 'fixed_indices': ('fixed', 'list nat')},
+         var_types={'shuffled_seq': 'list Z'},
+         ret_ty='list Z', res_ty='pyres (list Z)', ok='(POk {})', stub='PErr PyValueError', errors=DEC_ERR, raises=[],
+         stmt_rewrites=[('seq = str(seq)', 'pass')],
+         patterns=DEC_WALK + [('random.sample(_a, len(_a))', {'_a': 'list nat'}, 'shuffled', 'list nat')],
+         stmt_patterns=[('shuffled_seq.append(_c)', {'_c': 'Z'}, 'shuffled_seq', '({cur} ++ [{_c}])')],
+         fuel=['(S (length s + length {shuffled_indices}))']),
+]
+
+# ---------------------------------------------------------------------------------------------- C12 index directory
+# (7) index.py IndexMetadata.get_canonical_pool / register_canonical_pool, version.py MetaVersion.is_valid_mpg_version /
+#     is_valid                                                                       vs Model/Index.v
+#     Trusted: `a.jsonfy(graph_params=False) == b.jsonfy(graph_params=False)` is Index.params_eqb (its key list is
+#     regenerated by harness/translate/version.py); the file-name f-string is Index.filename_of (prefix / width / suffix
+#     regenerated by the same translator); get_semver is Index.get_semver (None = the ValueError out of int());
+#     tuple >= is Index.lex_ge; str == is eq_seq; a CanonicalPoolMetadata object is truthy.
+IDX = dict(out='Py_index', file='moPepGen/index.py', cls='IndexMetadata', imports=['Gen.Version', 'Model.Index'],
+           types={'pjson': 'params', 'optpool': 'option poolmeta'})
+VER = dict(out='Py_version', file='moPepGen/version.py', cls='MetaVersion', imports=['Gen.Version', 'Model.Index'])
+IDX_PATS = [
+    ('self.canonical_pools', {}, '(m_pools m)', 'list poolmeta'),
+    ('_p.cleavage_params', {'_p': 'poolmeta'}, '(pm_params {_p})', 'params'),
+    ('_p.index', {'_p': 'poolmeta'}, '(pm_index {_p})', 'Z'),
+    ('_p.jsonfy(graph_params=False)', {'_p': 'params'}, '{_p}', 'pjson'),
+    ('_a == _b', {'_a': 'pjson', '_b': 'pjson'}, '(params_eqb {_a} {_b})', 'bool'),
+]
+TARGETS += [
+    dict(IDX, func='get_canonical_pool', coq_name='py_get_canonical_pool',
+         args=[('m', 'meta'), ('cp', 'params')], params={'cleavage_params': ('cp', 'params')},
+         ret_ty='poolmeta', res_ty='option poolmeta', ok='(Some {})', ok_none='None',
+         stub='Some (mkPM [] 0 cp)', errors={}, raises=[], patterns=IDX_PATS),
+    dict(IDX, func='register_canonical_pool', coq_name='py_register_canonical_pool',
+         args=[('m', 'meta'), ('cp', 'params')], params={'cleavage_params': ('cp', 'params')},
+         pre_env={'pools__': ('(m_pools m)', 'list poolmeta')},
+         ret_ty='poolmeta', res_ty='option (poolmeta * meta)', ok='(Some ({}, mkM (m_ver m) {pools__} (m_src m)))',
+         stub='Some (mkPM [] 0 cp, m)', errors={'ValueError': 'None'},
+         raises=[('ValueError', 'any', None, 'None')],
+         truthy={'optpool': '(is_some {0})'},
+         patterns=IDX_PATS + [
+             ('self.get_canonical_pool(_p)', {'_p': 'params'}, '(get_pool {_p} (m_pools m))', 'optpool'),
+             ('CanonicalPoolMetadata(filename=_f, index=_i, cleavage_params=_p)', {'_f': '*', '_i': 'Z', '_p': 'params'},
+              '(mkPM (filename_of {_i}) {_i} {_p})', 'poolmeta')],
+         stmt_patterns=[('self.canonical_pools.append(_x)', {'_x': 'poolmeta'}, 'pools__', '({cur} ++ [{_x}])')]),
+]
+VER_PATS = [
+    ('self.python', {}, '(v_py cur)', 'str'), ('self.biopython', {}, '(v_bio cur)', 'str'),
+    ('_v.python', {'_v': 'version'}, '(v_py {_v})', 'str'), ('_v.biopython', {'_v': 'version'}, '(v_bio {_v})', 'str'),
+    ('_v.mopepgen', {'_v': 'version'}, '(v_mpg {_v})', 'str'),
+    ('_a == _b', {'_a': 'str', '_b': 'str'}, '(eq_seq {_a} {_b})', 'bool'),
+    ('MINIMAL_VERSION', {}, 'minimal_version', 'str'),
+    ('self.get_semver(_x)', {'_x': 'str'}, '(get_semver {_x})', 'opt:ValueError:semver'),
+    ('_a >= _b', {'_a': 'semver', '_b': 'semver'}, '(lex_ge {_a} {_b})', 'bool'),
+]
+TARGETS += [
+    dict(VER, func='is_valid_mpg_version', coq_name='py_is_valid_mpg_version',
+         args=[('cur', 'version'), ('ver', 'list Z')], params={'version': ('ver', 'str')},
+         types={'str': 'list Z', 'semver': 'list Z'},
+         ret_ty='bool', res_ty='vres', ok='(if {} then VTrue else VFalse)', stub='VRaise',
+         errors={'ValueError': 'VRaise'}, raises=[], patterns=VER_PATS),
+    dict(VER, func='is_valid', coq_name='py_is_valid',
+         args=[('cur', 'version'), ('rec', 'version')], params={'version': ('rec', 'version')},
+         types={'str': 'list Z', 'semver': 'list Z'},
+         ret_ty='bool', res_ty='vres', ok='(if {} then VTrue else VFalse)', stub='VRaise',
+         errors={'ValueError': 'VRaise'}, raises=[],
+         patterns=VER_PATS + [
+             # the call of the method translated just above (same Gen file)
+             ('self.is_valid_mpg_version(_x)', {'_x': 'str'},
+              '(match py_is_valid_mpg_version cur {_x} with VRaise => None | VTrue => Some true | VFalse => Some false end)',
+              'opt:ValueError:bool')]),
+]
